@@ -216,6 +216,8 @@ def search(ctx, seeds, full=False):
         check_image(ctx, img, [('seed', G.unpack_sizes(s['sizes']))] + c05_family(img, rng, ctx.quick, False), fails)
         ext = G.Img(s['fmt'], data + bytes([data[-1] if data else 0]) * (2 << 20), img.bounds, img.tag + '+2MiB')
         check_image(ctx, ext, c05_family(ext, rng, ctx.quick, False), fails)
+        if len(fails) >= 5:
+            return fails
     rounds = (2 if full else 1) if ctx.quick else (3 if full else 2)
     for _ in range(rounds):
         for img in c05_images(ctx, rng, for_search=True):
